@@ -23,22 +23,21 @@ Lemma qv_int z : qv (VInt z) = inject_Z z.
 Proof. reflexivity. Qed.
 
 (* Z tests are the Q tests of the injections *)
+Lemma Qcompare_inject x y : (inject_Z x ?= inject_Z y)%Q = (x ?= y).
+Proof. unfold Qcompare, inject_Z. cbn. rewrite !Z.mul_1_r. reflexivity. Qed.
 Lemma ltb_inject x y : (x <? y) = q_ltb (inject_Z x) (inject_Z y).
 Proof.
-  unfold q_ltb. rewrite <- Zcompare_Qcompare_inject. unfold Z.ltb. reflexivity.
+  unfold q_ltb. rewrite Qcompare_inject. unfold Z.ltb. reflexivity.
 Qed.
 Lemma leb_inject x y : (x <=? y) = q_leb (inject_Z x) (inject_Z y).
 Proof.
-  unfold q_leb. rewrite <- Zcompare_Qcompare_inject. unfold Z.leb. reflexivity.
+  unfold q_leb. rewrite Qcompare_inject. unfold Z.leb. reflexivity.
 Qed.
 Lemma eqb_inject x y : (x =? y) = q_eqb (inject_Z x) (inject_Z y).
 Proof.
   unfold q_eqb, Qeq_bool, inject_Z. cbn [Qnum Qden]. rewrite !Z.mul_1_r.
   unfold Zeq_bool. rewrite Z.eqb_compare. reflexivity.
 Qed.
-Lemma Zcompare_Qcompare_inject_sym : forall x y, (inject_Z x ?= inject_Z y)%Q = (x ?= y).
-Proof. intros. unfold Qcompare, inject_Z. cbn. rewrite !Z.mul_1_r. reflexivity. Qed.
-
 (* q_ltb etc. are compatible with Qeq *)
 Lemma q_ltb_comp a a' b b' : (a == a')%Q -> (b == b')%Q -> q_ltb a b = q_ltb a' b'.
 Proof. intros Ha Hb. unfold q_ltb. rewrite (Qcompare_comp a a' Ha b b' Hb). reflexivity. Qed.
@@ -140,7 +139,7 @@ Proof.
   intros Ha Hb.
   assert (E : py_mul a b = arith Z.mul Qmult a b).
   { destruct a, b; cbn [numeric] in *; try contradiction; reflexivity. }
-  rewrite E. apply arith_num; auto. intros. apply inject_Z_mult.
+  rewrite E. apply arith_num; auto. intros. rewrite inject_Z_mult. reflexivity.
 Qed.
 Lemma py_add_num a b : numeric a -> numeric b ->
   exists r, py_add a b = Ok r /\ numeric r /\ (qv r == qv a + qv b)%Q.
@@ -148,7 +147,7 @@ Proof.
   intros Ha Hb.
   assert (E : py_add a b = arith Z.add Qplus a b).
   { destruct a, b; cbn [numeric] in *; try contradiction; reflexivity. }
-  rewrite E. apply arith_num; auto. intros. apply inject_Z_plus.
+  rewrite E. apply arith_num; auto. intros. rewrite inject_Z_plus. reflexivity.
 Qed.
 Lemma py_sub_num a b : numeric a -> numeric b ->
   exists r, py_sub a b = Ok r /\ numeric r /\ (qv r == qv a - qv b)%Q.
@@ -205,6 +204,28 @@ Lemma py_neg_num a : numeric a ->
 Proof.
   intros Ha. destruct a; cbn [numeric] in Ha; try contradiction; unfold py_neg, qv; cbn [as_num num_q].
   - eexists; split; [reflexivity|split; [exact I|]]. cbn [as_num num_q]. destruct b; reflexivity.
-  - eexists; split; [reflexivity|split; [exact I|]]. cbn [as_num num_q]. apply inject_Z_opp.
+  - eexists; split; [reflexivity|split; [exact I|]]. cbn [as_num num_q]. rewrite inject_Z_opp. reflexivity.
   - eexists; split; [reflexivity|split; [exact I|]]. apply qv_mkfloat.
+Qed.
+
+Lemma py_mod_num a b : numeric a -> numeric b -> ~ (qv b == 0)%Q ->
+  exists r, py_mod a b = Ok r /\ numeric r
+            /\ (qv r == qv a - qv b * inject_Z (Qfloor (qv a / qv b)))%Q.
+Proof.
+  intros Ha Hb Hz. destruct (numeric_as_num a Ha) as (na & Ea & Qa).
+  destruct (numeric_as_num b Hb) as (nb & Eb & Qb).
+  unfold py_mod. rewrite Ea, Eb. rewrite <- Qa, <- Qb in *.
+  assert (Hnz : q_is_zero (num_q nb) = false).
+  { destruct (q_is_zero (num_q nb)) eqn:E; [apply q_is_zero_spec in E; contradiction|reflexivity]. }
+  destruct na as [x|x], nb as [y|y]; cbn [num_q] in *.
+  - assert (Hy : y <> 0).
+    { intros ->. apply Hz. reflexivity. }
+    replace (y =? 0) with false by (symmetry; apply Z.eqb_neq; exact Hy).
+    eexists; split; [reflexivity|split; [exact I|]].
+    unfold qv. cbn [as_num num_q]. rewrite <- Zdiv_Qdiv.
+    rewrite <- inject_Z_mult. unfold Qminus. rewrite <- inject_Z_opp, <- inject_Z_plus.
+    rewrite Z.mod_eq by exact Hy. reflexivity.
+  - rewrite Hnz. eexists; split; [reflexivity|split; [exact I|]]. apply qv_mkfloat.
+  - rewrite Hnz. eexists; split; [reflexivity|split; [exact I|]]. apply qv_mkfloat.
+  - rewrite Hnz. eexists; split; [reflexivity|split; [exact I|]]. apply qv_mkfloat.
 Qed.
